@@ -6,7 +6,8 @@
 From Coq Require Import NArith ZArith Bool List.
 From CppUVerif Require Import lib.CMem lib.CMemFacts gen.Gen_LoopC13.   (* before the model: its Ok/Oob/NoFuel are the unqualified ones below *)
 From CppUVerif Require Import lib.Str lib.CSem gen.Gen_LeafC13 C13_Text C13_Model C13_Proofs C13_Replace C13_Printable C13_Concat C13_Alloc C13_Atoi C13_Main C13_LeafTie
-                              C13_Pool C13_PoolProofs C13_Life C13_LifeProofs C13_LifeProofs2 C13_LifeSplit C13_LifeMain.
+                              C13_Pool C13_PoolProofs C13_Life C13_LifeProofs C13_LifeProofs2 C13_LifeSplit C13_Loose C13_Chain C13_LifeMain.
+From CppUVerif Require C12_Safe.
 From CppUVerif Require Import C13_SrcTie C13_SrcTie2 C13_SrcTie3 C13_SrcTie4 C13_SrcSpec C13_SrcSpec2 C13_SrcSpec3 C13_SrcSpec4.
 Import ListNotations.
 Local Open Scope N_scope.
@@ -234,12 +235,73 @@ Theorem C13_replaceStr_exact_buffer : forall a to w, NN a -> NN to -> NN w -> re
 Proof. exact replaceStr_exact. Qed.
 Print Assumptions C13_replaceStr_exact_buffer.
 
-(* every SEQUENCE of the 13 sequence operations applied to the same three objects: each step is Ok and the objects hold exactly
-   the C strings of the textbook state *)
-Theorem C13_sequence_spec : forall ops strs, Forall OKS strs -> forallb valid_sop ops = true ->
-  mrun (map cs strs) ops = Ok (map cs (fold_left t_sstep ops strs)) /\ Forall OKS (fold_left t_sstep ops strs).
+(* every SEQUENCE of the 32 sequence steps applied to the same four objects (three named ones and the RESULT OBJECT obj[3], which is the
+   very object an operation returned -- constructor, copy, subString / subStringFromTill with or without truncation, lowerCase,
+   printable, operator+, the formatters, repeat, an element of a split collection -- and is consumed in place by the following steps):
+   if every buffer holds the C string of its textbook value, with ANY slack behind the terminator (LB: the recorded buffer size
+   need not be size() + 1), then the whole sequence is Ok (memory-safe, terminating), the buffers hold the textbook values
+   afterwards (again with any slack) and the log of the observer steps (size / isEmpty, at, == / contains / startsWith / endsWith /
+   count, copyToBuffer, findFrom) is the textbook log *)
+Theorem C13_sequence_spec : forall ops st strs, Forall2 LB st strs -> Forall OKS strs -> valid_ops strs ops = true ->
+  exists st', mrun st ops = Ok (st', snd (t_run strs ops)) /\ Forall2 LB st' (fst (t_run strs ops)) /\ Forall OKS (fst (t_run strs ops)).
 Proof. exact mrun_ok. Qed.
 Print Assumptions C13_sequence_spec.
+
+(* one step, from any state that satisfies the invariant: Ok, and the invariant again *)
+Theorem C13_sequence_step_spec : forall st strs q, Forall2 LB st strs -> Forall OKS strs -> valid_sop q = true -> valid_at strs q = true ->
+  exists st', mstep st q = Ok st' /\ Forall2 LB st' (t_sstep strs q) /\ Forall OKS (t_sstep strs q).
+Proof. exact mstep_okL. Qed.
+Print Assumptions C13_sequence_step_spec.
+
+(* one observer, on buffers with any slack: the textbook answer *)
+Theorem C13_sequence_observers_spec : forall st strs q, Forall2 LB st strs -> Forall OKS strs -> valid_sop q = true ->
+  mobs st q = Ok (t_sobs strs q).
+Proof. exact mobs_ok. Qed.
+Print Assumptions C13_sequence_observers_spec.
+
+(* the in-place consumers and second-level producers that were proved on exact buffers only, now on a buffer with any slack r *)
+Theorem C13_replaceChar_slack_spec : forall s r c1 c2, NN s -> replaceChar_m (s ++ 0 :: r) c1 c2 = Ok (t_repl_char c1 c2 s ++ 0 :: r).
+Proof. exact replaceChar_okg. Qed.
+Print Assumptions C13_replaceChar_slack_spec.
+
+Theorem C13_replaceStr_slack_spec : forall a r0 to w, NN a -> NN to -> NN w ->
+  exists r', replaceStr_m (a ++ 0 :: r0) (cs to) (cs w) = Ok (t_replace a to w ++ 0 :: r').
+Proof. exact replaceStr_okg. Qed.
+Print Assumptions C13_replaceStr_slack_spec.
+
+Theorem C13_printable_slack_spec : forall a r, BY a -> NN a ->
+  exists buf, printable_m (a ++ 0 :: r) = Ok buf /\ cstr_of buf = Some (t_printable a).
+Proof. exact printable_okg. Qed.
+Print Assumptions C13_printable_slack_spec.
+
+Theorem C13_subStringFromTill_slack_spec : forall a r c1 c2, NN a -> N.of_nat (length a) < NPOS ->
+  exists buf, subStringFromTill_m (a ++ 0 :: r) c1 c2 = Ok buf /\ cstr_of buf = Some (t_from_till a c1 c2).
+Proof. exact fromTill_okg. Qed.
+Print Assumptions C13_subStringFromTill_slack_spec.
+
+Theorem C13_split_slack_spec : forall a r d, NN a -> d <> 0 ->
+  exists bufs, split_m (a ++ 0 :: r) (cs [d]) = Ok bufs /\ Forall2 C12_Safe.holds bufs (t_split_all d a).
+Proof. exact split_okg. Qed.
+Print Assumptions C13_split_slack_spec.
+
+(* the chain on its own: the object subString returned -- truncated or not, from a buffer with any slack -- used directly as the
+   left-hand side of += holds exactly the textbook concatenation *)
+Theorem C13_subString_then_append : forall a r b m x rx, NN a -> NN x ->
+  exists buf, subString_m (a ++ 0 :: r) b m = Ok buf /\ append_m buf (x ++ 0 :: rx) = Ok (cs (t_substr a b m ++ x)).
+Proof. exact subString_then_append. Qed.
+Print Assumptions C13_subString_then_append.
+
+(* operator+= taking the old length from the recorded buffer size instead of size(): the same function on every exact buffer (why no
+   single operation and no chain through a copy or an assignment shows the difference) ... *)
+Theorem C13_append_from_recorded_size_agrees_on_exact_buffers : forall a b rb, NN a -> NN b ->
+  append_recorded (cs a) (b ++ 0 :: rb) = append_m (cs a) (b ++ 0 :: rb).
+Proof. exact append_recorded_exact. Qed.
+Print Assumptions C13_append_from_recorded_size_agrees_on_exact_buffers.
+
+(* ... and wrong on the object a truncating subString returned ("abc".subString(0, 1) += "x" stays "a") *)
+Theorem C13_append_from_recorded_size_refuted : ~ append_recorded_stmt.
+Proof. exact append_recorded_refuted. Qed.
+Print Assumptions C13_append_from_recorded_size_refuted.
 
 (* the scenario language of the check (C13_Life.v): the pairing verdict of EVERY scenario is true ... *)
 Theorem C13_scn_paired : forall s, o_paired (run_scn s) = true.
